@@ -390,7 +390,8 @@ def run_case(case):
                 v.apply_BCs()          # clean input (construction leaves the edited BC object flagged)
                 before = snap(v)
                 rb = rng_rhs.copy()
-                out = pf.solveExplicitPDE(v, dt, rng_rhs)
+                # the right-hand side as the flat vector the term builders return, or shaped like the variable
+                out = pf.solveExplicitPDE(v, dt, rng_rhs if dt != 1.0 else rng_rhs.reshape(g.fshape))
                 res["evals"] += 1
                 res["nontrivial"] += 1
                 if out is v:
